@@ -157,6 +157,31 @@ def _fix(res, tier, lo, hi):
         steps = 0
         shape = src[len(PRE):].split("\n", 2)[1].strip()[:40] if src.startswith(PRE) else src[:40]
         frag = code
+        # every proposed patch on its own (what interactive -f lets the user accept), judged once from the initial text
+        for ri in range(1, len(reps)):
+            from pyanalyze.name_check_visitor import NameCheckVisitor
+            lines0 = [l + "\n" for l in cur.splitlines()]
+            alt = "".join(NameCheckVisitor._apply_changes_to_lines([reps[ri]], lines0))
+            if alt == cur:
+                continue
+            res.states += 1
+            res.validated += 1
+            problems = []
+            if not _parses(alt):
+                problems.append("result-does-not-parse")
+            else:
+                if len(_ast_diff(ast.parse(cur), ast.parse(alt))) > 1:
+                    problems.append("ast-changed-in-several-places")
+                code_i = _code_of_first([reps[ri]], D0)
+                try:
+                    if code_i != "missing_f" and _run_f(cur) != _run_f(alt):
+                        problems.append("behaviour-changed")
+                except Exception as e:
+                    problems.append("result-does-not-import:" + type(e).__name__)
+            res.outcomes["patch-alone:%s" % ("safe" if not problems else "unsafe")] += 1
+            if problems:
+                res.violation({"kind": "unsafe-fix", "fix": str(_code_of_first([reps[ri]], D0)), "problems": "+".join(problems), "shape": _shape_of(src), "patch": "alone"}, case,
+                              "accepting only patch %d of %d on\n%s\ngives\n%s\nproblems: %s" % (ri + 1, len(reps), cur, alt, problems))
         while reps and new != cur:
             res.states += 1
             steps += 1
